@@ -222,7 +222,7 @@ class VC:
         cands.setdefault('Int', []).append('0')
         for (sort, term) in self.inst_terms[:obl.ninst]:
             l = cands.setdefault(sort, [])
-            if term not in l and len(l) < 14:
+            if term not in l and len(l) < 40:
                 l.append(term)
         for ai, a in enumerate(self.assumes[:obl.nassume]):
             if not isinstance(a, tuple):
@@ -236,7 +236,7 @@ class VC:
             n = 0
             for combo in itertools.product(*lists):
                 n += 1
-                if n > 40:
+                if n > 60:
                     break
                 key = (qa['id'], combo)
                 if key not in self.qa_cache and 'fn' in qa:
